@@ -97,10 +97,11 @@ static bool oneOp(String* s, MStr* m, bool sharingOnly)
              s[t] = r; m[t] = mr; break; }
   case 15: { String c(s[t]); checkOne(c, m[t]); c.append('x'); MStr mc = m[t]; byte x = 'x'; MStr xs; xs.set(&x, 1); mc.append(xs); checkOne(c, mc); break; }   // copy, then modify the copy
   case 16: { // replace(needle, replacement), needle non-empty; subject must be a NUL-terminated C string (owned) for the C-string search
-             MStr nd, rp; symStr(nd, 2); symStr(rp, 2); if(nd.n == 0) break;
+             MStr nd, rp; symStr(nd, 2); symStr(rp, 2);
              bool anyUnspec = false; for(unsigned i = 0; i < m[t].n; ++i) anyUnspec |= m[t].unspec[i]; if(anyUnspec) break;
              String needle((const char*)nd.v, nd.n), repl((const char*)rp.v, rp.n);
              s[t].replace(needle, repl);
+             if(nd.n == 0) break;      // an empty needle: the call terminates and leaves the string as it is (compared with the unchanged model below)
              MStr r; unsigned i = 0;
              while(i < m[t].n)
              {
@@ -204,7 +205,13 @@ extern "C" int queries()
     vf_assert(from < 0 ? f2 == 0 : f2 == base2 + from, "find(char, start) == model");
     break; }
   case 3: {
-    if(mb.n == 0) break;
+    if(mb.n == 0)
+    { // the empty needle occurs at every position: first at the start, last at the end (and nothing outside the string is read)
+      const char* f = a.find((const char*)b); const char* l = a.findLast((const char*)b); const char* base = a.data->str;
+      vf_assert(f == base, "find(\"\") == start");
+      vf_assert(l == base + ma.n, "findLast(\"\") == end");
+      break;
+    }
     int first = -1, last = -1;
     for(unsigned j = 0; j + mb.n <= ma.n; ++j) { bool mt = true; for(unsigned l = 0; l < mb.n; ++l) mt = mt & (ma.v[j + l] == mb.v[l]); if(mt) { if(first < 0) first = j; last = j; } }
     const char* f = a.find((const char*)b); const char* l = a.findLast((const char*)b);
